@@ -1,6 +1,6 @@
 """C05 result columns are exactly the final frame: names, count and order."""
 import itertools, json, random, re
-import vlib, relgen, relcheck
+import vlib, relgen, relcheck, starexpand
 from vlib import vh_batch, drv_batch
 from props.c01 import SAFE, FULL, UNDECL
 
@@ -106,7 +106,97 @@ def run(ctx):
                                {"prql": c.prql, "target": target, "sql": a["sql"], "observed_columns": names, "expected_columns": expect,
                                 "rq_columns": frame, "db": c.db, "schema": c.schema_list, "class": fid})
 
+    # (iii) the alias layer: a final select that renames every column, with aliases chosen to be confusable with source names
+    def adversarial_aliases(rng, names):
+        out = []
+        for n in names:
+            k = rng.random()
+            if k < 0.3:
+                a = n.upper() if n != n.upper() else n.lower()          # differs by letter case only
+            elif k < 0.45:
+                a = n.capitalize() if n.capitalize() != n else n.upper()
+            elif k < 0.6:
+                a = rng.choice(["select", "from", "order", "group", "Table", "user", "index", "key"])   # needs quoting
+            elif k < 0.7:
+                a = n + " x"                                            # needs backticks / quotes
+            elif k < 0.8:
+                a = rng.choice(names)                                   # another column's (or its own) name
+            else:
+                a = n + "_r"
+            # SQLite resolves column references case-insensitively: keep the aliases distinct up to case
+            while a.lower() in [o.lower() for o in out]:
+                a = a + "_"
+            out.append(a)
+        return out
+
+    def rename_stream(label, rng, n, prof, target="sql.sqlite"):
+        cases = [relgen.make_case(rng, **prof) for _ in range(n)]
+        progs = []
+        for c in cases:
+            fr = c.frames[-1]
+            if len({x.name for x in fr}) != len(fr):
+                continue
+            al = adversarial_aliases(rng, [x.name for x in fr])
+            bt = lambda a: a if re.fullmatch(r"[A-Za-z_][A-Za-z0-9_]*", a) and a not in ("select", "from", "order", "group", "user", "index", "key") else f"`{a}`"
+            line = "select {" + ", ".join(f"{bt(a)} = {x.ref}" for a, x in zip(al, fr)) + "}"
+            progs.append((c, c.prql + line + "\n", al))
+        comp = vh_batch([{"op": "compile", "prql": p, "target": target} for _, p, _ in progs])
+        for (c, p, al), a in zip(progs, comp):
+            if "sql" not in a:
+                ctx.count(f"{label}:not-compiled")
+                continue
+            names, rows, err = relgen.run_sqlite(c.schema_list, c.db, a["sql"])
+            if err:
+                ctx.count(f"{label}:sqlite-error (C01/C07 matter)")
+                continue
+            ctx.case((p, target), nontrivial=len(names) >= 2)
+            ctx.count(f"{label}:renamed")
+            if names != al:
+                r = {"status": "column-count" if len(names) != len(al) else "names-differ", "detail": "", "sql": a["sql"], "names": names}
+                fid = relcheck.classify(type("X", (), {"prql": p, "columns": al})(), r, target)
+                ctx.oracle_failure(fid, f"result columns {names} but the final select names them {al}",
+                                   {"prql": p, "target": target, "sql": a["sql"], "observed_columns": names, "expected_columns": al, "db": c.db, "schema": c.schema_list})
+            elif len(ctx.samples) < 5 and any(x.lower() == y.lower() and x != y for x, y in zip(al, [f.name for f in c.frames[-1]])):
+                ctx.sample({"prql": p.split("}\n", 1)[-1], "sql": a["sql"][:300], "result_columns": names})
+
+    # (iv) dialects with a column-exclusion facility: stars are expanded from the schema and the statement is run on SQLite
+    EXCL_KINDS = ["exclude", "exclude", "derive", "filter", "sort", "take", "join", "group_take", "select", "exclude"]
+
+    def exclusion_stream(label, rng, n, dialects=("duckdb", "snowflake", "bigquery")):
+        cases = [relgen.make_case(rng, kinds=EXCL_KINDS, max_tr=4, nlets=0, **UNDECL) for _ in range(n)]
+        for d in dialects:
+            comp = vh_batch([{"op": "compile", "prql": c.prql, "target": "sql." + d} for c in cases])
+            for c, a in zip(cases, comp):
+                if "sql" not in a:
+                    ctx.count(f"{label}:{d}:not-compiled")
+                    continue
+                try:
+                    sql2 = starexpand.expand(a["sql"].replace("`", '"'), c.schema_list)
+                except Exception as e:
+                    ctx.count(f"{label}:{d}:not-expandable")
+                    continue
+                names, rows, err = relgen.run_sqlite(c.schema_list, c.db, sql2)
+                if err:
+                    ctx.count(f"{label}:{d}:sqlite-error (C01/C07 matter)")
+                    continue
+                ctx.case((c.prql, d), nontrivial=("EXCLUDE" in a["sql"] or "EXCEPT (" in a["sql"]))
+                ctx.count(f"{label}:{d}:{'with-exclusion' if ('EXCLUDE' in a['sql'] or 'EXCEPT (' in a['sql']) else 'plain'}")
+                expect = c.columns
+                if len(names) == len(expect) and sorted(names) == sorted(expect):
+                    if names != expect:
+                        ctx.count(f"{label}:{d}:order-differs (star expands in table order)")
+                    continue
+                r = {"status": "column-count" if len(names) != len(expect) else "names-differ", "detail": "", "sql": a["sql"], "names": names}
+                fid = relcheck.classify(c, r, "sql." + d)
+                ctx.oracle_failure(fid, f"{d}: result columns {names} but the final frame is {expect}",
+                                   {"prql": c.prql, "target": "sql." + d, "sql": a["sql"], "expanded_sql": sql2, "observed_columns": names,
+                                    "expected_columns": expect, "db": c.db, "schema": c.schema_list, "class": fid})
+
     fixed = random.Random(505)
+    rename_stream("rename", fixed, 250 if quick else 2000, SAFE)
+    rename_stream("rename-seed", ctx.rng, 150 if quick else 2000, SAFE)
+    exclusion_stream("exclusion", fixed, 200 if quick else 1500)
+    exclusion_stream("exclusion-seed", ctx.rng, 100 if quick else 1500)
     explore("safe", fixed, 300 if quick else 2500, SAFE)
     explore("dup-names", fixed, 300 if quick else 2500, FULL)
     explore("wildcards", fixed, 300 if quick else 2500, UNDECL)
